@@ -130,23 +130,6 @@ Proof. unfold md_name. rewrite rev_unit, rev_involutive. reflexivity. Qed.
 Lemma length_append a b : String.length (a +++ b) = String.length a + String.length b.
 Proof. induction a as [|x a IH]; [reflexivity|]. cbn. now rewrite IH. Qed.
 
-(* `trim_end_matches(p)` removes exactly one copy when what is left does not end in p *)
-Lemma trim_end_matches_once p s :
-  sempty p = false -> ends_with p s = false -> trim_end_matches p (s +++ p) = s.
-Proof.
-  intros Hp He. unfold trim_end_matches, trim_start_matches.
-  rewrite srev_append. cbn [trim_start_matches_fuel].
-  rewrite strip_prefix_app.
-  assert (Hp' : sempty (srev p) = false).
-  { destruct p as [|c p]; [discriminate|]. rewrite srev_cons. now destruct (srev p). }
-  rewrite Hp'.
-  assert (G : forall f, trim_start_matches_fuel f (srev p) (srev s) = srev s).
-  { intros [|f]; [reflexivity|]. cbn [trim_start_matches_fuel].
-    unfold ends_with in He. rewrite starts_with_strip in He.
-    now destruct (strip_prefix (srev p) (srev s)). }
-  rewrite G. apply srev_involutive.
-Qed.
-
 (* ---------- the note, its path, its URI and its key ----------------------------------- *)
 
 (* a library path: `/` + the directory names joined by `/`, optionally with a trailing slash *)
@@ -259,22 +242,19 @@ Proof.
   - rewrite Forall_forall. intros x Hx. apply in_map_iff in Hx as (y & <- & _). apply enc_no_sep.
 Qed.
 
+(* one extension goes, whatever the stem is (also a stem that itself ends in `.md`) *)
 Lemma key_of_md dirs stem :
-  good_name stem -> ends_with MD stem = false ->
   key_from_file_name (join SEPS (dirs ++ [stem +++ MD])) = join SEPS (dirs ++ [stem]).
 Proof.
-  intros [[_ Hs] _] He. unfold key_from_file_name.
+  unfold key_from_file_name.
   assert (E : join SEPS (dirs ++ [stem +++ MD]) = join SEPS (dirs ++ [stem]) +++ MD).
   { rewrite !join_snoc. destruct dirs; [reflexivity|]. now rewrite !sapp_assoc. }
-  rewrite E. apply trim_end_matches_once; [reflexivity|].
-  now rewrite ends_md_join.
+  rewrite E. apply strip_md_app.
 Qed.
 
-Lemma disk_key_snoc dirs stem :
-  ends_with MD stem = false -> disk_key (dirs ++ [stem]) = join SEPS (dirs ++ [stem]).
+Lemma disk_key_snoc dirs stem : disk_key (dirs ++ [stem]) = join SEPS (dirs ++ [stem]).
 Proof.
-  intros He. unfold disk_key, loader_key. rewrite rev_unit, rev_involutive.
-  now rewrite trim_end_matches_once.
+  unfold disk_key, loader_key. rewrite rev_unit, rev_involutive. now rewrite strip_md_app.
 Qed.
 
 (* C14 for the repaired BasePath: for every library path (any directory names, trailing slash
@@ -283,7 +263,6 @@ Qed.
    is that very URI, and the URI opens exactly that file. *)
 Theorem same_note_fixed bs slash dirs stem :
   bs <> [] -> Forall good_name bs -> Forall good_name (dirs ++ [stem]) ->
-  ends_with MD stem = false ->
   let base := base_path bs slash in
   let comps := dirs ++ [stem] in
   exists u p,
@@ -293,7 +272,7 @@ Theorem same_note_fixed bs slash dirs stem :
     to_file_path u = Some p /\
     path_components p = path_components (note_path base comps).
 Proof.
-  intros Hne Hb Hc He base comps.
+  intros Hne Hb Hc base comps.
   assert (Hs : good_name stem).
   { apply Forall_app in Hc as [_ Hs]. now inversion Hs. }
   assert (Hd : Forall good_name dirs) by (apply Forall_app in Hc; tauto).
@@ -312,9 +291,9 @@ Proof.
   split; [now apply file_uri_note|]. split; [|split; [|split]].
   - unfold url_to_key_fixed. rewrite TF, PC.
     unfold base. rewrite base_path_components by exact Hb.
-    rewrite strip_list_prefix_app. unfold comps. rewrite disk_key_snoc by exact He.
-    now apply key_of_md.
-  - unfold key_to_url_fixed, comps. rewrite disk_key_snoc by exact He.
+    rewrite strip_list_prefix_app. unfold comps. rewrite disk_key_snoc.
+    apply key_of_md.
+  - unfold key_to_url_fixed, comps. rewrite disk_key_snoc.
     assert (E : base +++ SEPS +++ to_path (join SEPS (dirs ++ [stem])) = note_path base (dirs ++ [stem])).
     { unfold note_path, to_path. rewrite md_name_snoc. do 2 f_equal.
       rewrite !join_snoc. destruct dirs; [reflexivity|]. now rewrite !sapp_assoc. }
@@ -367,14 +346,13 @@ Qed.
 Theorem url_to_key_as_found_safe bs dirs stem :
   bs <> [] -> Forall good_name bs -> Forall good_name (dirs ++ [stem]) ->
   forallb url_safe bs = true -> forallb url_safe (dirs ++ [stem]) = true ->
-  ends_with MD stem = false ->
   starts_with "file:" (join SEPS (dirs ++ [stem +++ MD])) = false ->
   let base := base_path bs false in
   let comps := dirs ++ [stem] in
   exists u, file_uri (note_path base comps) = Some u /\
             url_to_key_as_found (server_prefix base) u = disk_key comps.
 Proof.
-  intros Hne Hb Hc Sb Sc He Hf base comps.
+  intros Hne Hb Hc Sb Sc Hf base comps.
   exists (uri_of (bs ++ dirs ++ [stem +++ MD])). split; [now apply file_uri_note|].
   assert (Hs : good_name stem).
   { apply Forall_app in Hc as [_ Hs]. now inversion Hs. }
@@ -395,7 +373,7 @@ Proof.
     now rewrite !sapp_assoc. }
   rewrite U. unfold url_to_key_as_found.
   rewrite trim_start_matches_once.
-  - unfold comps. rewrite disk_key_snoc by exact He. now apply key_of_md.
+  - unfold comps. rewrite disk_key_snoc. apply key_of_md.
   - reflexivity.
   - (* the rest cannot start with the prefix again: it does not even start with `file:` *)
     unfold server_prefix.
@@ -461,17 +439,16 @@ Proof. split; [refute_open | reflexivity]. Qed.
 Lemma trailing_slash_refuted : as_found_breaks_key "/r/lib/" ["a"] /\ base_trailing_slash "/r/lib/" = true.
 Proof. split; [refute_key | reflexivity]. Qed.
 
-(* K5: every trailing `.md` is stripped: two files, one key; and the URI answered for
-   x.md.md opens x.md *)
-Lemma md_md_refuted :
-  disk_key ["x.md"] = disk_key ["x"] /\ loaded ["x.md"] = true /\ loaded ["x"] = true /\
-  as_found_opens_other B0 ["x.md"] /\ stem_md ["x.md"] = true.
-Proof. repeat split; try reflexivity. refute_open. Qed.
-(* … which the repaired BasePath does not change (F14 stays open) *)
-Lemma md_md_fixed_refuted :
+(* former K5 (F-C14-5, repaired): ONE trailing `.md` is stripped: the files x.md.md and x.md are two
+   notes, `x.md` and `x`, and the URI answered for the note `x.md` opens x.md.md (an instance of
+   same_note_fixed, which no longer excludes stems ending in `.md`) *)
+Lemma md_md_distinct :
+  disk_key ["x.md"] = "x.md" /\ disk_key ["x"] = "x" /\ loaded ["x.md"] = true /\ loaded ["x"] = true /\
+  url_to_key_fixed B0 "file:///r/lib/x.md.md" = "x.md" /\ url_to_key_fixed B0 "file:///r/lib/x.md" = "x" /\
   exists u p, key_to_url_fixed B0 (disk_key ["x.md"]) = Ok (Some u) /\ to_file_path u = Some p /\
-              path_components p <> path_components (note_path B0 ["x.md"]).
-Proof. do 2 eexists. split; [vm_compute; reflexivity | split; [vm_compute; reflexivity | vm_compute; discriminate]]. Qed.
+              u = "file:///r/lib/x.md.md" /\
+              path_components p = path_components (note_path B0 ["x.md"]).
+Proof. repeat split; try reflexivity. do 2 eexists. repeat split; vm_compute; reflexivity. Qed.
 
 (* K6: trim_start_matches strips the prefix as often as it repeats *)
 Lemma prefix_once_refuted :
